@@ -50,11 +50,55 @@ KNOWN_PRIVATE = {
 }
 
 
+# module -> class -> private methods that exist on the reference tree (a NEW private method `self._m(...)` is expanded like a
+# new module-level helper, with `self` bound to `self`)
+KNOWN_PRIVATE_METHODS = {
+    "_combinatorics": {"SimpleRandomSamplingWithoutReplacement": {"_log_normalizer", "_natural_params"}},
+    "_decoding": {"BeamSearch": {"_to_width"}, "SequentialLanguageModelDistribution": {"_validate_sample"}},
+    "_lm": {"LookupLanguageModel": {"_build_trie", "_infer_max_direct_descendants"}},
+    "_pl_data": {"LitDataModule": {"_construct_dataloader_with_checks", "_construct_dataset_with_checks"},
+                 "LitDataModuleParams": {"_use_split"}},
+    "_straight_through": {"GumbelOneHotCategorical": {"_new"}, "LogisticBernoulli": {"_new"},
+                          "StraightThrough": {"_validate_thresholded_sample"}},
+    "_textgrid": {"TextGrid": {"_check_type", "_find_tiers", "_load_tiers"}, "Tier": {"_make_info"}},
+    "training": {"TrainingStateController": {"_barrier", "_clean_up_files", "_init_seed_and_model"}},
+}
+
+
 def _body(fn: ast.FunctionDef) -> List[ast.stmt]:
     b = list(fn.body)
     if b and isinstance(b[0], ast.Expr) and isinstance(b[0].value, ast.Constant) and isinstance(b[0].value.value, str):
         b = b[1:]
-    return b
+    return _normalise_tail(b)
+
+
+def _ends_in_return(body: List[ast.stmt]) -> bool:
+    if not body:
+        return False
+    last = body[-1]
+    if isinstance(last, ast.Return):
+        return True
+    if isinstance(last, ast.If):
+        return bool(last.orelse) and _ends_in_return(last.body) and _ends_in_return(last.orelse)
+    if isinstance(last, ast.With):
+        return _ends_in_return(last.body)
+    return False
+
+
+def _normalise_tail(body: List[ast.stmt]) -> List[ast.stmt]:
+    """`if c: ...; return a` followed by the rest  ==  `if c: ...; return a  else: <rest>` (guard-clause form to if/else form),
+    applied recursively, so that every return ends up in tail position where that is possible."""
+    out: List[ast.stmt] = []
+    for i, st in enumerate(body):
+        if isinstance(st, ast.If) and i < len(body) - 1:
+            if not st.orelse and _ends_in_return(_normalise_tail(st.body)):
+                new_if = ast.copy_location(ast.If(test=st.test, body=_normalise_tail(st.body), orelse=_normalise_tail(body[i + 1:])), st)
+                out.append(new_if)
+                return out
+        if isinstance(st, ast.If):
+            st = ast.copy_location(ast.If(test=st.test, body=_normalise_tail(st.body), orelse=_normalise_tail(st.orelse) if st.orelse else []), st)
+        out.append(st)
+    return out
 
 
 def _tail_ok(body: List[ast.stmt]) -> bool:
@@ -70,6 +114,8 @@ def _tail_ok(body: List[ast.stmt]) -> bool:
         return last.value is not None
     if isinstance(last, ast.If):
         return bool(last.orelse) and _tail_ok(last.body) and _tail_ok(last.orelse)
+    if isinstance(last, ast.With):
+        return _tail_ok(last.body)
     return False
 
 
@@ -79,6 +125,8 @@ def _replace_tail(body: List[ast.stmt], mk) -> List[ast.stmt]:
     last = body[-1]
     if isinstance(last, ast.Return):
         out.append(ast.copy_location(mk(last.value), last))
+    elif isinstance(last, ast.With):
+        out.append(ast.copy_location(ast.With(items=last.items, body=_replace_tail(last.body, mk)), last))
     else:
         new_if = ast.copy_location(ast.If(test=last.test, body=_replace_tail(last.body, mk), orelse=_replace_tail(last.orelse, mk)), last)
         out.append(new_if)
@@ -90,14 +138,19 @@ def _simple_helper(fn: ast.FunctionDef) -> Optional[str]:
     if a.vararg or a.kwarg or a.posonlyargs:
         return None
     b = _body(fn)
-    if not _tail_ok(b):
-        return None
     for n in ast.walk(fn):
-        if isinstance(n, (ast.Yield, ast.YieldFrom, ast.Lambda, ast.Global, ast.Nonlocal, ast.Try, ast.With)) or \
+        if isinstance(n, (ast.Yield, ast.YieldFrom, ast.Lambda, ast.Global, ast.Nonlocal)) or \
                 (isinstance(n, (ast.FunctionDef, ast.ClassDef)) and n is not fn):
             return None
         if isinstance(n, ast.Call) and isinstance(n.func, ast.Name) and n.func.id == fn.name:
             return None  # recursive
+        if isinstance(n, ast.Call) and isinstance(n.func, ast.Attribute) and n.func.attr == fn.name and \
+                isinstance(n.func.value, ast.Name) and n.func.value.id == "self":
+            return None
+    if b and not any(isinstance(n, ast.Return) for n in ast.walk(fn)):
+        return "proc"  # a procedure: expanded where it is called as a statement
+    if not _tail_ok(b):
+        return None
     return "expr" if len(b) == 1 and isinstance(b[0], ast.Return) else "stmt"
 
 
@@ -111,8 +164,26 @@ def _is_simple_arg(e: ast.AST) -> bool:
     return False
 
 
-def _bind(fn: ast.FunctionDef, call: ast.Call) -> Optional[Dict[str, ast.AST]]:
+def _bind(fn: ast.FunctionDef, call: ast.Call, bound_self: bool = False) -> Optional[Dict[str, ast.AST]]:
     a = fn.args
+    if bound_self:
+        # self._m(x): the first formal is the receiver
+        if not a.args:
+            return None
+        import copy as _c
+        a = _c.copy(a)
+        recv = fn.args.args[0].arg
+        a.args = fn.args.args[1:]
+        out0 = _bind_args(a, call)
+        if out0 is None:
+            return None
+        if recv != "self":
+            out0[recv] = ast.Name(id="self", ctx=ast.Load())
+        return out0
+    return _bind_args(a, call)
+
+
+def _bind_args(a: ast.arguments, call: ast.Call) -> Optional[Dict[str, ast.AST]]:
     names = [x.arg for x in a.args] + [x.arg for x in a.kwonlyargs]
     if any(isinstance(x, ast.Starred) for x in call.args) or any(k.arg is None for k in call.keywords):
         return None
@@ -151,10 +222,21 @@ def _names(node: ast.AST) -> set:
     return {n.id for n in ast.walk(node) if isinstance(n, ast.Name)}
 
 
+def _callee_key(call: ast.Call) -> Optional[str]:
+    f = call.func
+    if isinstance(f, ast.Name):
+        return f.id
+    if isinstance(f, ast.Attribute) and isinstance(f.value, ast.Name) and f.value.id == "self":
+        return "self." + f.attr
+    return None
+
+
 class _Expander(ast.NodeTransformer):
-    def __init__(self, helpers: Dict[str, ast.FunctionDef]):
-        self.helpers = helpers
-        self.kinds = {k: _simple_helper(v) for k, v in helpers.items()}
+    def __init__(self, helpers: Dict[str, ast.FunctionDef], method_helpers: Optional[Dict[str, Dict[str, ast.FunctionDef]]] = None):
+        self.module_helpers = helpers
+        self.method_helpers = method_helpers or {}
+        self.helpers = dict(helpers)
+        self.kinds = {k: _simple_helper(v) for k, v in self.helpers.items()}
         self.count = 0
         self.scope_names: set = set()
         self.fresh = 0
@@ -162,9 +244,10 @@ class _Expander(ast.NodeTransformer):
     # ---- expression helpers: anywhere -------------------------------------------------------------------------
     def visit_Call(self, node: ast.Call):
         self.generic_visit(node)
-        if isinstance(node.func, ast.Name) and self.kinds.get(node.func.id) == "expr":
-            fn = self.helpers[node.func.id]
-            b = _bind(fn, node)
+        key = _callee_key(node)
+        if key is not None and self.kinds.get(key) == "expr":
+            fn = self.helpers[key]
+            b = _bind(fn, node, key.startswith("self."))
             if b is None:
                 return node
             ret = _body(fn)[-1].value
@@ -181,10 +264,14 @@ class _Expander(ast.NodeTransformer):
 
     # ---- statement helpers: whole right-hand side / return / expression statement ---------------------------
     def _expand_stmt(self, st: ast.stmt, call: ast.Call, kind: str, targets=None) -> Optional[List[ast.stmt]]:
-        if not (isinstance(call, ast.Call) and isinstance(call.func, ast.Name) and self.kinds.get(call.func.id) == "stmt"):
+        key = _callee_key(call) if isinstance(call, ast.Call) else None
+        if key is None or self.kinds.get(key) not in ("stmt", "proc"):
             return None
-        fn = self.helpers[call.func.id]
-        b = _bind(fn, call)
+        is_proc = self.kinds.get(key) == "proc"
+        if is_proc and kind != "expr":
+            return None  # its (None) value is used: leave the call alone
+        fn = self.helpers[key]
+        b = _bind(fn, call, key.startswith("self."))
         if b is None:
             return None
         body = _body(fn)
@@ -220,7 +307,8 @@ class _Expander(ast.NodeTransformer):
             if kind == "return":
                 return ast.Return(value=rv)
             return ast.Expr(value=rv)
-        for x in _replace_tail([copy.deepcopy(y) for y in body], mk):
+        new_body = [copy.deepcopy(y) for y in body] if is_proc else _replace_tail([copy.deepcopy(y) for y in body], mk)
+        for x in new_body:
             out.append(sub.visit(x))
         for x in out:
             ast.copy_location(x, x if hasattr(x, "lineno") else st)
@@ -234,6 +322,16 @@ class _Expander(ast.NodeTransformer):
             nm = f"{base}_h{self.fresh}"
             if nm not in self.scope_names:
                 return nm
+
+    def visit_ClassDef(self, node: ast.ClassDef):
+        saved = (self.helpers, self.kinds)
+        mh = self.method_helpers.get(node.name, {})
+        self.helpers = dict(self.module_helpers)
+        self.helpers.update({"self." + k: v for k, v in mh.items()})
+        self.kinds = {k: _simple_helper(v) for k, v in self.helpers.items()}
+        self.generic_visit(node)
+        self.helpers, self.kinds = saved
+        return node
 
     def visit_FunctionDef(self, node: ast.FunctionDef):
         outer = self.scope_names
@@ -250,8 +348,8 @@ class _Expander(ast.NodeTransformer):
         val = getattr(st, field, None)
         if val is None:
             return None
-        calls = [c for c in ast.walk(val) if isinstance(c, ast.Call) and isinstance(c.func, ast.Name)
-                 and self.kinds.get(c.func.id) == "stmt" and c is not val]
+        calls = [c for c in ast.walk(val) if isinstance(c, ast.Call) and _callee_key(c) is not None
+                 and self.kinds.get(_callee_key(c)) == "stmt" and c is not val]
         if not calls:
             return None
         c = calls[0]
@@ -273,6 +371,13 @@ class _Expander(ast.NodeTransformer):
         r = self._expand_stmt(node, node.value, "assign", node.targets)
         if r is None:
             r = self._hoist(node, "value")
+        if r is not None:
+            return [self.generic_visit(x) for x in r]
+        return self.generic_visit(node)
+
+    def visit_If(self, node: ast.If):
+        # a statement helper called in the test: its body goes before the `if` (the rules' view only; nothing runs)
+        r = self._hoist(node, "test")
         if r is not None:
             return [self.generic_visit(x) for x in r]
         return self.generic_visit(node)
@@ -299,12 +404,33 @@ def expand_new_private_helpers(tree: ast.Module, module_name: str) -> ast.Module
     helpers = {st.name: st for st in tree.body if isinstance(st, ast.FunctionDef) and st.name.startswith("_")
                and not st.name.startswith("__") and st.name not in known}
     helpers = {k: v for k, v in helpers.items() if _simple_helper(v)}
-    if not helpers:
+    known_m = KNOWN_PRIVATE_METHODS.get(module_name, {})
+    method_helpers = {}
+    for c in tree.body:
+        if isinstance(c, ast.ClassDef):
+            mh = {st.name: st for st in c.body if isinstance(st, ast.FunctionDef) and st.name.startswith("_")
+                  and not st.name.startswith("__") and st.name not in known_m.get(c.name, set())
+                  and not st.decorator_list and st.args.args and _simple_helper(st)}
+            if mh:
+                method_helpers[c.name] = mh
+    if not helpers and not method_helpers:
         return tree
     for _ in range(3):
-        ex = _Expander(helpers)
+        ex = _Expander(helpers, method_helpers)
         tree = ex.visit(tree)
         ast.fix_missing_locations(tree)
         if not ex.count:
             break
+    # a helper that was expanded at every use is no longer part of the program the rules look at
+    refs = set()
+    for n in ast.walk(tree):
+        if isinstance(n, ast.Name) and isinstance(n.ctx, ast.Load):
+            refs.add(n.id)
+        elif isinstance(n, ast.Attribute) and isinstance(n.value, ast.Name) and n.value.id in ("self", "cls"):
+            refs.add("self." + n.attr)
+    tree.body = [st for st in tree.body if not (isinstance(st, ast.FunctionDef) and st.name in helpers and st.name not in refs)]
+    for c in tree.body:
+        if isinstance(c, ast.ClassDef) and c.name in method_helpers:
+            c.body = [st for st in c.body if not (isinstance(st, ast.FunctionDef) and st.name in method_helpers[c.name]
+                                                  and "self." + st.name not in refs)] or [ast.Pass()]
     return tree
